@@ -873,7 +873,7 @@ func (s *State) assume(e *Expr, truth bool) {
 func aliasClass(addr *Expr) string {
 	switch addr.Op {
 	case "fa":
-		return "F:" + addr.S
+		return "F:" + addr.Aux + "." + addr.S
 	case "ia":
 		if addr.Typ != nil {
 			return "E:" + types.TypeString(addr.Typ, nil)
@@ -888,6 +888,13 @@ func aliasClass(addr *Expr) string {
 		return "P:" + types.TypeString(addr.Typ, nil)
 	}
 	return "P:?"
+}
+
+func ownerName(t types.Type) string {
+	if n, ok := t.(*types.Named); ok {
+		return n.Obj().Name()
+	}
+	return types.TypeString(t, nil)
 }
 
 // rootOf returns the innermost base of an address term.
@@ -946,7 +953,7 @@ func (s *State) load(addr *Expr, typ types.Type) *Expr {
 			all := true
 			for i := 0; i < st.NumFields(); i++ {
 				f := st.Field(i)
-				fa := mkFieldAddr(addr, f.Name(), i, types.NewPointer(f.Type()))
+				fa := mkFieldAddr(addr, f.Name(), i, types.NewPointer(f.Type()), ownerName(typ))
 				v, has := s.mem[fa.Key]
 				if !has {
 					all = false
@@ -972,7 +979,7 @@ func (s *State) zeroInit(addr *Expr, t types.Type, site string) {
 	case *types.Struct:
 		for i := 0; i < u.NumFields(); i++ {
 			f := u.Field(i)
-			fa := mkFieldAddr(addr, f.Name(), i, types.NewPointer(f.Type()))
+			fa := mkFieldAddr(addr, f.Name(), i, types.NewPointer(f.Type()), ownerName(t))
 			s.mem[fa.Key] = zeroValue(f.Type())
 			s.memE[fa.Key] = fa
 		}
